@@ -203,9 +203,17 @@ def translate(repo):
     if not str(B.__file__).startswith(str(repo)):
         raise C.TranslateError(f'scared.des.base was imported from {B.__file__}, not from {repo}')
     before = _snapshot(B)
-    t1 = tabulate_iterations(B, FORMS)
-    t2 = tabulate_iterations(B, (384,))
-    after = _snapshot(B)
+    try:
+        t1 = tabulate_iterations(B, FORMS)
+        t2 = tabulate_iterations(B, (384,))
+        after = _snapshot(B)
+    finally:
+        # leave the module as it was imported: the correspondence harness runs in this process afterwards and must be able
+        # to name the call that modifies a shared template
+        for t in TEMPLATES:
+            obj = getattr(B._ParametricCipher, t)
+            if isinstance(obj, list):
+                obj[:] = before[t][1]
     for t in TEMPLATES:
         if before[t][0] != after[t][0] or len(before[t][1]) != len(after[t][1]) or any(a is not b for a, b in zip(before[t][1], after[t][1])):
             raise C.TranslateError(f'the class-level template {t} was modified by a call (stop-point surgery writes into a shared list)')
